@@ -681,6 +681,42 @@ def metric_lines(r, shim, ncases):
                 L.append(f"c01 {spec(font, idx, [f'w{mo + 4 * g}:{v:04x}'])} {d} - - 0 0 - - - {rle(text)} ser=1")
     return L
 
+
+def gsub_random_lines(r, nfonts):
+    """random well-formed GSUB/GDEF fonts (tools/gsubgen.py: all lookup types incl. deletion, reverse chaining, nested and
+    self-recursive contextual lookups, lookup flags) through shape() with short texts over the font's own alphabet, every
+    feature switched on: the lookup interpreter is total on states only such fonts reach (e.g. a buffer emptied by deletions)"""
+    import fontbuild, gsubgen
+    d = os.path.join(cache_dir(), "rnd")
+    os.makedirs(d, exist_ok=True)
+    L = []
+    for k in range(nfonts):
+        rec = gsubgen.rand_recipe(r, max_lookups=6)
+        # deletion-heavy variant: some sequences of the multiple substitutions become empty
+        if r.chance(1, 3):
+            for lk in rec["gsub"]["lookups"]:
+                if lk["type"] == 2:
+                    for st in lk["subtables"]:
+                        st["sequences"] = [([] if r.chance(1, 2) else sq) for sq in st["sequences"]]
+        try:
+            data = fontbuild.build(rec)
+        except Exception:
+            continue
+        p = os.path.join(d, f"rnd-{k}.ttf")
+        if not os.path.exists(p) or open(p, "rb").read() != data:
+            open(p, "wb").write(data)
+        n = rec["num_glyphs"]
+        feats = ",".join(f"{tag_hex(f['tag'])}:{r.choice([1, 1, 2, 3])}:0:4294967295" for f in rec["gsub"]["features"]) or "-"
+        for _ in range(6):
+            ln = r.choice([1, 1, 2, 2, 3, 4, 6])
+            gl = [r.range(1, n - 1) for _ in range(ln)]
+            if r.chance(1, 3):
+                gl = [gl[0]] * ln                                  # one glyph repeated: "everything is deleted" cases
+            text = [0xE000 + g - 1 for g in gl]                     # cmap "pua": U+E000 + gid - 1
+            cfg = f"{r.choice(['-', 'l', 'r', 't'])} - - {r.choice([0, 3])} {r.below(3)} {feats} - -"
+            L.append(f"c01 {spec(p)} {cfg} {rle(text)} ser=1")
+    return L
+
 FILL_TABLES = ("hmtx", "vmtx", "hhea", "vhea", "OS/2", "VORG", "post", "kern", "GDEF")
 
 
@@ -794,6 +830,7 @@ def run(ctx):
     run_both(j, "config", config_lines(ctx.rng("config"), ctx.budget(2128, 2128 * 4)), timeout=900)
     run_both(j, "mutants", mutant_lines(ctx.rng("mutants"), ctx.budget(120000, 1000000)), timeout=900)
     run_both(j, "sweep", sweep_lines(ctx.rng("sweep"), ctx.budget(256, 64), ctx.budget([0, 1, 14], [0, 1, 2, 3, 14, 15, 16])), timeout=900)
+    run_both(j, "gsub-random", gsub_random_lines(ctx.rng("gsubrnd"), ctx.budget(500, 6000)), timeout=900)
     run_both(j, "glyph-metric", metric_lines(ctx.rng("metric"), shim, ctx.budget(2128, 2128)), timeout=900)
     run_both(j, "table-fill", fill_lines(ctx.rng("fill"), ctx.budget(150, 467)), timeout=900)
     run_both(j, "long", long_lines(ctx.rng("long"), ctx.budget(60, 467), ctx.budget(1, 3), ctx.budget([1, 65536], [1, 65536, 300000])),
